@@ -124,6 +124,10 @@ def margOf (σ : Mxl.C05.LName → Rat) (x : Name) (n i : Nat) : Rat :=
 def slotsFlat (lv : List (Name × Nat)) (cs : List Name) : List Slot :=
   cs.flatMap fun c => (List.range (Mxl.C05.labelsOf lv c)).map (Slot.pos c)
 
+/-- the isotopomers of `x` (with `n` positions) that are labelled at position `i` -/
+def labelledAt (x : Name) (n i : Nat) : List Mxl.C05.LName :=
+  ((Mxl.C05.patterns n).filter fun u => u.getD i false).map fun u => ⟨x, some u⟩
+
 /-- 1 if the bit is set, else 0 -/
 def ind (b : Bool) : Rat := if b then 1 else 0
 
